@@ -89,7 +89,7 @@ impl NetCfg {
     }
 }
 
-#[derive(Clone, Debug, Default)]
+#[derive(Default)]
 pub struct OsCfg {
     /// any socket call may fail with an arbitrary io::Error
     pub io_error_ppm: u64,
@@ -97,6 +97,12 @@ pub struct OsCfg {
     pub short_write_ppm: u64,
     /// `send` fails for the n-th (0-based) udp send / tcp write, exactly
     pub fail_send_at: Vec<u64>,
+    /// recognises the transmissions that start an attempt of the request unit under test
+    pub unit_matcher: Option<Rc<dyn Fn(&[u8]) -> bool>>,
+    /// how many such transmissions the client made
+    pub unit_sends_seen: u64,
+    /// which of them (0-based) must fail with an io::Error
+    pub fail_unit_sends: Vec<u64>,
 }
 
 #[derive(Clone, Debug)]
@@ -686,7 +692,12 @@ impl Backend for SimBackend {
         let n = w.send_counter;
         w.send_counter += 1;
         let t = w.now;
-        let forced = w.os.fail_send_at.contains(&n);
+        let mut forced = w.os.fail_send_at.contains(&n);
+        if w.os.unit_matcher.as_ref().map_or(false, |m| m(data)) {
+            let k = w.os.unit_sends_seen;
+            w.os.unit_sends_seen += 1;
+            forced |= w.os.fail_unit_sends.contains(&k);
+        }
         let fault = if forced {
             w.stats.fault("send_error");
             Some(io::Error::new(io::ErrorKind::PermissionDenied, "injected send failure"))
@@ -852,7 +863,12 @@ impl Backend for SimBackend {
         let n = w.send_counter;
         w.send_counter += 1;
         let t = w.now;
-        let forced = w.os.fail_send_at.contains(&n);
+        let mut forced = w.os.fail_send_at.contains(&n);
+        if w.os.unit_matcher.as_ref().map_or(false, |m| m(data)) {
+            let k = w.os.unit_sends_seen;
+            w.os.unit_sends_seen += 1;
+            forced |= w.os.fail_unit_sends.contains(&k);
+        }
         let fault = if forced {
             w.stats.fault("send_error");
             Some(io::Error::new(io::ErrorKind::PermissionDenied, "injected write failure"))
